@@ -24,7 +24,7 @@ pub const STAGE_REGRESS: u64 = 4; // regression replays (index = position in the
 pub const STAGE_OTHER: u64 = 9; // minimiser, samples (harness work on the main thread)
 
 const MAX_SLOTS: usize = 256;
-const REC: u64 = 32;
+const REC: u64 = 48;
 
 #[repr(C)]
 struct Timespec {
@@ -112,6 +112,17 @@ pub fn enter_stage(stage: u64, run: u64) {
         rec[8..16].copy_from_slice(&run.to_le_bytes());
         rec[16..24].copy_from_slice(&seq.to_le_bytes());
         let _ = f.write_at(&rec, i as u64 * REC);
+    }
+}
+/// progress note of a worker (its own counters so far): survives the death of the process, so
+/// that the supervisor can report measured lower bounds instead of nothing
+pub fn note_progress(distinct: u64, nontrivial: u64) {
+    let Some(i) = my_slot() else { return };
+    if let Some(f) = journal() {
+        let mut rec = [0u8; 16];
+        rec[..8].copy_from_slice(&distinct.to_le_bytes());
+        rec[8..].copy_from_slice(&nontrivial.to_le_bytes());
+        let _ = f.write_at(&rec, i as u64 * REC + 32);
     }
 }
 /// this thread is done with watched work (for now)
@@ -222,13 +233,19 @@ pub struct InFlight {
     pub run: u64,
     pub hang: bool,
 }
-pub fn read_journal(path: &str) -> (Vec<InFlight>, u64) {
-    let Ok(b) = std::fs::read(path) else { return (vec![], 0) };
+/// (runs in flight, runs started, largest per-worker count of distinct cases, ... of non-trivial cases)
+pub fn read_journal(path: &str) -> (Vec<InFlight>, u64, u64, u64) {
+    let Ok(b) = std::fs::read(path) else { return (vec![], 0, 0, 0) };
     let mut out = vec![];
     let mut started = 0u64;
+    let (mut distinct, mut nontrivial) = (0u64, 0u64);
     for rec in b.chunks(REC as usize) {
         if rec.len() < 32 {
             break;
+        }
+        if rec.len() >= 48 {
+            distinct = distinct.max(u64::from_le_bytes(rec[32..40].try_into().unwrap()));
+            nontrivial = nontrivial.max(u64::from_le_bytes(rec[40..48].try_into().unwrap()));
         }
         let g = |o: usize| u64::from_le_bytes(rec[o..o + 8].try_into().unwrap());
         started += g(16);
@@ -236,5 +253,5 @@ pub fn read_journal(path: &str) -> (Vec<InFlight>, u64) {
             out.push(InFlight { stage: g(0), run: g(8), hang: g(24) != 0 });
         }
     }
-    (out, started)
+    (out, started, distinct, nontrivial)
 }
